@@ -94,10 +94,11 @@ Record st := St {
   roots : list Z;                     (* roots (as a list without duplicates) *)
   tape : list (list positive);        (* iteration-order oracle (see Reorder) *)
   trig : option nat;                  (* forced reordering trigger (see Core) *)
+  max_nodes : option positive;        (* max_nodes ([None]: [sys.maxsize]) *)
 }.
 Global Instance eta_st : Settable _ :=
   settable! St <succ; pred; refc; min_free; ite_tab; vars; lvl2var;
-                last_len; rctx; roots; tape; trig>.
+                last_len; rctx; roots; tape; trig; max_nodes>.
 
 Notation MS := (M st).
 
